@@ -12,7 +12,6 @@ TABLE = {}
 
 NOT_APPLICABLE = {
     'C10': 'quantifies over crash points between file-system mutations and fault sequences of whole configure/regenerate runs; a function contract relates one call\'s pre-state to its post-state and has no notion of "killed here" (DESIGN.md section 6)',
-    'C06': 'relational property across three emitters per builtin (make / ninja / compdb) over ~6 kLOC of duck-typed builtins: a product-program obligation per builtin needs every builtin\'s rule object under the opaque-object mode; the emitter kernels that are under contract (ninja command_build, Makefile.rule / NinjaFile.build, the writers) are claimed under C03/C01/C02 instead; no relational contract was built (DESIGN.md 8.3)',
 }
 
 NJ_ASSUME = ['specs/ninja.py (ninja lexing of values and paths) is written from the ninja manual; no ninja binary is '
@@ -259,4 +258,18 @@ TABLE['C18'] = {
     'level_text': 'Bounded exploration only (labelled): one generated project, three archive formats. Nothing is proved for this property.',
     'level_note': 'bounded stand-in only; the contract technique does not apply (DESIGN.md section 6 and 8.3).',
     'technique': 'bounded runtime contracts on the real pipeline and archive tool (stand-in; no deductive obligations)',
+}
+
+
+TABLE['C06'] = {
+    'modules': ['contracts.crossbackend'],
+    'level': 'exploration',
+    'explanation': 'a relational property across three hand-written emitters per builtin over duck-typed rule objects: a product-program contract per builtin was not built, nothing is proved (the emitter kernels under contract are claimed under C01/C02/C03). The check is a bounded runtime contract on the real pipeline: two generated projects (libraries with forwarded options, tests with an environment, install, pkg-config, alias; build_step / command / copy_file with blanks, `$` and quotes in names and options) are configured for Make and for Ninja by the tree under test. GNU make reports the Make side itself (make -n -B for command lines, make -pn for the dependency relation); build.ninja is read with the evaluator specs/ninja_eval.py; compile_commands.json of each backend is matched against the compile steps of that backend. Compared: buildable file targets, dependency relation, argument lists (program, arguments, environment assignments) of every build step and of test / install / uninstall / dist.',
+    'assumptions': ['specs/ninja_eval.py reads build.ninja as ninja would (written from the ninja manual; no ninja binary in the sandbox; build.ninja itself is written with a stub `ninja` that only answers --version)',
+                    'documented backend-specific differences normalised away: Ninja-only -fdiagnostics-color, Make directory sentinels and the depfixer line, the regeneration statement, a leading ./'],
+    'trusted_base': [],
+    'not_covered': ['builtins not used by the two generated projects', 'configure options (library modes, install dirs, environment-provided flags)', 'working directory of steps (both backends run in the build directory by construction)', 'msbuild'],
+    'level_text': 'Bounded exploration only (labelled): two generated projects, both backends. Nothing is proved for this property.',
+    'level_note': 'bounded stand-in only; no relational contract was built (DESIGN.md 8.3).',
+    'technique': 'bounded runtime contracts on the real pipeline, GNU make as the reader of the Make side (stand-in; no deductive obligations)',
 }
